@@ -481,6 +481,10 @@ func (c *UConn) Write(b []byte) (int, error) {
 }
 
 func (uconn *UConn) ApplyConfig() error {
+	// The server name reported by ConnectionState is the one sent in the
+	// ClientHello: it is set by the SNIExtension below, and stays empty when
+	// the extension list has no SNIExtension (e.g. after RemoveSNIExtension).
+	uconn.HandshakeState.Hello.ServerName = ""
 	for _, ext := range uconn.Extensions {
 		err := ext.writeToUConn(uconn)
 		if err != nil {
